@@ -365,6 +365,68 @@ def gpg_default_sequence(rng, res, d):
                                   "statuses": [st1, st2]})
 
 
+def shrinking_rewrite_case(rng, res, d):
+    """Metadata written over a LONGER file of the same name that cannot be removed (a directory the user may not change,
+    a bind-mounted file): signed by two keys, then signed again in place by one. What is on disk afterwards is the new
+    metadata and nothing else: it loads, and verifies with the key that signed."""
+    from in_toto.models.layout import Layout
+    from in_toto.models.metadata import Metadata, Metablock, Envelope
+    k1, k2, k3 = rng.sample(W.pool(), 3)
+    dsse = rng.random() < 0.5
+    through = rng.choice(["library", "in-toto-sign"])
+    path = os.path.join(d, "shrink-%d.layout" % rng.randrange(1 << 30))
+    lay = Layout(expires="2031-01-01T00:00:00Z", readme="r" * rng.randrange(0, 40))
+    md = Envelope.from_signable(lay) if dsse else Metablock(signed=lay)
+    for k in (k1, k2, k3):
+        md.create_signature(k.signer)
+    md.dump(path)
+    long_len = os.path.getsize(path)
+    real_remove, real_unlink = os.remove, os.unlink
+
+    def refuse(p_, *a, **kw):
+        if os.path.abspath(p_) == path:
+            raise PermissionError(13, "not removable (injected)", p_)
+        return real_remove(p_, *a, **kw)
+    got = {}
+    try:
+        os.remove = os.unlink = refuse
+        try:
+            if through == "library":
+                md2 = Metadata.load(path)
+                md2.signatures = []
+                md2.create_signature(k1.signer)
+                md2.dump(path)
+            else:
+                from harness import cli
+                from harness.props.c18 import priv_path
+                st, _o, _e = cli.run_main("in_toto_sign", ["-f", path, "-k", priv_path(k1)])
+                got["status"] = st
+        finally:
+            os.remove, os.unlink = real_remove, real_unlink
+        try:
+            back = Metadata.load(path)
+            got["signers"] = [getattr(s_, "keyid", None) or s_.get("keyid") for s_ in back.signatures]
+            back.verify_signature(json.loads(json.dumps(k1.pub)))
+            got["verifies"] = True
+        except Exception as e:  # pylint: disable=broad-except
+            got["error_after"] = W.exc_class(e)
+    except Exception as e:  # pylint: disable=broad-except
+        got["error"] = W.exc_class(e)
+    finally:
+        os.remove, os.unlink = real_remove, real_unlink
+        try:
+            os.remove(path)
+        except OSError:
+            pass
+    ok = got.get("verifies") is True and got.get("signers") == [k1.keyid] and got.get("status", 0) == 0
+    case = {"op": "shrinking_rewrite", "dsse": dsse, "through": through, "key": k1.kind, "longer_file_bytes": long_len}
+    res.case(dict(case, outcome=got), True, ok, sample_cap=1)
+    res.count("shrinking_rewrite")
+    if not ok:
+        res.fail("oracle", case, {"why": "metadata signed in place over a longer file that cannot be removed: what is on disk afterwards "
+                                         "does not load / verify as the newly signed metadata", "outcome": got})
+
+
 def shard_roundtrip(seed, idx, n, tier):
     res = core.Result()
     rng = core.rng_for(seed, "c09", "rt", idx)
@@ -377,6 +439,7 @@ def shard_roundtrip(seed, idx, n, tier):
             sign_sequence(rng, res, d)
         if idx % 4 == 0:
             gpg_default_sequence(rng, res, d)
+        shrinking_rewrite_case(rng, res, d)
     finally:
         shutil.rmtree(d, ignore_errors=True)
     return res
